@@ -3,7 +3,6 @@
  *
  * Property C15 (reload / merge semantics).  The script comes on stdin, one command per line:
  *
- *   reset [<members>]                     start of a behaviour (multi mode only, see below)
  *   register string <path> <sub> <def>    sub: plain boolean integer float interval volume
  *   register inaddr <path> <defhost> <defservice>
  *   register list   <path> <n> <e1> ... <en>     (conf_register_string_list, varargs, n <= 4)
@@ -31,13 +30,18 @@
  * registered default as arrays of string tokens (string: 1, pair: 2, list: n, object: 0 tokens);
  * z is, for a plain string, the token of parsed.p_string, for a typed string "#<number>", else "".
  *
- * Multi mode (argument "-m"): the parent reads the whole script, and runs every block that starts
- * with a "reset" line in a freshly forked child (the fork happens before the configuration code has
- * been touched, so every behaviour starts from a pristine process image); it prints the reset line
- * as {"e":"Reset",...<json>} before and {"e":"exit","st":<exit status>,"sig":<signal>} after.
+ * Tree mode (argument "-t"): the script is a prefix tree of histories in pre-order, one line
+ *   node <id> <parent id> <depth> <command>
+ * per node (depth 1 = first command of a history).  The children of a node all start from the state
+ * the process is in after the node's command: each child runs in a forked copy of the process (the last
+ * child of a non-top node reuses the process, nobody needs its state any more), so every root-to-leaf
+ * path is a history executed on its own process image and every tree edge is executed exactly once.
+ * begin/end lines carry "n":<id> and "par":<parent id>; a child that does not exit with status 0 is
+ * reported as {"e":"exit","n":<id of the forked node>,"st":..,"sig":..}.
  */
 #include "src/common.h"
 #include <sys/wait.h>
+#include <errno.h>
 
 struct event_base *ev_base;
 struct evdns_base *ev_dns;
@@ -53,6 +57,7 @@ static unsigned int n_objs;
 static char *hook_log[MAXHOOK];
 static unsigned int n_hooks;
 static unsigned int step_no;
+static long node_id = -1, node_par = -1;   /* tree mode: ids of the node being run and of its parent */
 
 static const char *kind_names[] = { "s", "i", "l", "o" };
 static const char *sub_names[] = { "plain", "boolean", "integer", "float", "interval", "volume" };
@@ -294,11 +299,19 @@ static void begin_path(const char *path)
     free(copy);
 }
 
+static void begin_line(const char *op)
+{
+    if (node_id >= 0)
+        printf("{\"e\":\"begin\",\"n\":%ld,\"par\":%ld,\"op\":\"%s\"", node_id, node_par, op);
+    else
+        printf("{\"e\":\"begin\",\"n\":%u,\"op\":\"%s\"", step_no, op);
+}
+
 static void end_step(int rc)
 {
     unsigned int ii;
 
-    printf("{\"e\":\"end\",\"n\":%u,\"rc\":%d,", step_no, rc);
+    printf("{\"e\":\"end\",\"n\":%ld,\"rc\":%d,", node_id >= 0 ? node_id : (long)step_no, rc);
     dump_tree();
     fputs(",\"hooks\":[", stdout);
     for (ii = 0; ii < n_hooks; ++ii) {
@@ -326,7 +339,8 @@ static void do_register(int argc, char **argv)
     split_path(argv[2], &parent_path, &name);
     parent = find_obj(parent_path);
 
-    printf("{\"e\":\"begin\",\"n\":%u,\"op\":\"reg\",\"p\":", step_no);
+    begin_line("reg");
+    fputs(",\"p\":", stdout);
     begin_path(argv[2]);
     if (!strcmp(kind, "string")) {
         unsigned int sub;
@@ -426,7 +440,8 @@ static void run_line(char *line)
         json = strchr(file, ' ');
         if (json)
             *json++ = '\0';
-        printf("{\"e\":\"begin\",\"n\":%u,\"op\":\"load\",%s}\n", step_no, (json && *json) ? json : "\"f\":[]");
+        begin_line("load");
+        printf(",%s}\n", (json && *json) ? json : "\"f\":[]");
         fflush(stdout);
         rc = conf_read(file);
         end_step(rc);
@@ -435,7 +450,8 @@ static void run_line(char *line)
     for (argv[argc] = strtok(rest, " "); argv[argc] && argc + 1 < MAXTOK; argv[argc] = strtok(NULL, " "))
         argc++;
     if (!strcmp(argv[0], "dump")) {
-        printf("{\"e\":\"begin\",\"n\":%u,\"op\":\"dump\"}\n", step_no);
+        begin_line("dump");
+        fputs("}\n", stdout);
         fflush(stdout);
         end_step(0);
     } else if (!strcmp(argv[0], "register")) {
@@ -464,70 +480,110 @@ static char *read_all(FILE *f)
     return buf;
 }
 
-int main(int argc, char **argv)
+/* ---- tree mode --------------------------------------------------------------------------- */
+struct tnode { long id, par; int depth; char *cmd; int end; /* index after the last descendant */ };
+static struct tnode *tn;
+static int n_tn;
+
+static void run_children(int first, int last, int top);
+
+/* executes node idx in this process, then its subtree */
+static void run_subtree(int idx)
 {
-    char *all, *line, *next;
-    int multi = argc > 1 && !strcmp(argv[1], "-m");
+    node_id = tn[idx].id;
+    node_par = tn[idx].par;
+    run_line(tn[idx].cmd);
+    run_children(idx + 1, tn[idx].end, 0);
+}
 
-    all = read_all(stdin);
-    if (!multi) {
-        init_subject();
-        for (line = all; line && *line; line = next) {
-            next = strchr(line, '\n');
-            if (next)
-                *next++ = '\0';
-            if (!strncmp(line, "reset", 5))
-                continue;
-            run_line(line);
-        }
-        fflush(stdout);
-        _exit(0);
-    }
+/* the nodes of depth d = tn[first].depth in [first, last) are siblings: each starts from the state this
+ * process is in now.  All but the last run in a forked copy; the last one may use this process itself
+ * (nobody needs its state afterwards) unless this is the top process. */
+static void run_children(int first, int last, int top)
+{
+    int c;
 
-    for (line = all; line && *line; ) {
-        char *block_end;
+    for (c = first; c < last; c = tn[c].end) {
         pid_t pid;
         int status = 0;
 
-        /* a block: "reset ..." line followed by its commands, up to the next "reset" line */
-        next = strchr(line, '\n');
-        if (next)
-            *next++ = '\0';
-        if (strncmp(line, "reset", 5)) {
-            if (*line)
-                die("multi mode: expected a reset line", line);
-            line = next;
-            continue;
+        if (!top && tn[c].end == last) {
+            run_subtree(c);
+            return;
         }
-        printf("{\"e\":\"Reset\"%s%s}\n", line[5] ? "," : "", line[5] ? line + 6 : "");
         fflush(stdout);
-        block_end = next;
-        while (block_end && *block_end && strncmp(block_end, "reset", 5)) {
-            block_end = strchr(block_end, '\n');
-            if (block_end)
-                block_end++;
-        }
         pid = fork();
         if (pid < 0)
             die("fork failed", NULL);
         if (pid == 0) {
-            char *l2, *n2;
-            init_subject();
-            for (l2 = next; l2 && *l2 && l2 != block_end; l2 = n2) {
-                n2 = strchr(l2, '\n');
-                if (n2)
-                    *n2++ = '\0';
-                run_line(l2);
-            }
+            run_subtree(c);
             fflush(stdout);
             _exit(0);
         }
         while (waitpid(pid, &status, 0) < 0 && errno == EINTR)
             ;
-        printf("{\"e\":\"exit\",\"st\":%d,\"sig\":%d}\n",
-               WIFEXITED(status) ? WEXITSTATUS(status) : -1, WIFSIGNALED(status) ? WTERMSIG(status) : 0);
-        fflush(stdout);
-        line = block_end;
+        if (!WIFEXITED(status) || WEXITSTATUS(status) != 0) {
+            printf("{\"e\":\"exit\",\"n\":%ld,\"st\":%d,\"sig\":%d}\n", tn[c].id,
+                   WIFEXITED(status) ? WEXITSTATUS(status) : -1, WIFSIGNALED(status) ? WTERMSIG(status) : 0);
+            fflush(stdout);
+            if (WIFEXITED(status) && WEXITSTATUS(status) == 3)
+                die("a child rejected its script", NULL);
+        }
     }
-    return 0;
+}
+
+static void tree_mode(char *all)
+{
+    char *line, *next;
+    int cap = 1024, ii, jj;
+
+    tn = malloc(cap * sizeof(*tn));
+    for (line = all; line && *line; line = next) {
+        long id, par;
+        int depth, used = 0;
+        next = strchr(line, '\n');
+        if (next)
+            *next++ = '\0';
+        if (!*line)
+            continue;
+        if (sscanf(line, "node %ld %ld %d %n", &id, &par, &depth, &used) < 3 || !used)
+            die("tree mode: expected 'node <id> <parent> <depth> <command>'", line);
+        if (n_tn == cap)
+            tn = realloc(tn, (cap <<= 1) * sizeof(*tn));
+        tn[n_tn].id = id;
+        tn[n_tn].par = par;
+        tn[n_tn].depth = depth;
+        tn[n_tn].cmd = line + used;
+        n_tn++;
+    }
+    for (ii = 0; ii < n_tn; ++ii) {
+        for (jj = ii + 1; jj < n_tn && tn[jj].depth > tn[ii].depth; ++jj)
+            ;
+        tn[ii].end = jj;
+        if (ii + 1 < n_tn && tn[ii + 1].depth > tn[ii].depth + 1)
+            die("tree mode: depth jumps", tn[ii + 1].cmd);
+    }
+    init_subject();
+    run_children(0, n_tn, 1);
+    fflush(stdout);
+}
+
+int main(int argc, char **argv)
+{
+    char *all, *line, *next;
+
+    all = read_all(stdin);
+    if (argc > 1 && !strcmp(argv[1], "-t")) {
+        tree_mode(all);
+        return 0;
+    }
+    init_subject();
+    for (line = all; line && *line; line = next) {
+        next = strchr(line, '\n');
+        if (next)
+            *next++ = '\0';
+        run_line(line);
+    }
+    fflush(stdout);
+    _exit(0);
 }
